@@ -218,8 +218,24 @@ class World:
         self.reset_logs()
 
     max_sleeps = FUEL
+    max_steps = 60000             # interactions per case: a loop that spins without sleeping is cut
+
+    cost_rng = None               # thorough tier, supporting runs: every syscall takes some virtual time
+
+    def tick(self):
+        self.oscalls += 1
+        self.steps += 1
+        if self.steps > self.max_steps:
+            raise Diverge("spin")
+        if self.cost_rng is not None:
+            c = self.cost_rng.choice(COSTS)
+            self.cost_total += c
+            self.now += c
 
     def reset_logs(self):
+        self.steps = 0
+        self.cost_total = Fr(0)
+        self.last_poll = None         # (instant, saw the process alive?) of the last waitpid/pid_exists answer
         self.sleeps = []
         self.calls = []           # (pid, timeout) of every Process.wait entered
         self.oscalls = 0
@@ -236,11 +252,11 @@ class World:
 
     # -- entry points handed to psutil
     def timer(self):
-        self.oscalls += 1
+        self.tick()
         return self.now
 
     def sleep(self, x):
-        self.oscalls += 1
+        self.tick()
         if len(self.sleeps) >= self.max_sleeps:
             raise Diverge("fuel")
         self.sleeps.append(to_frac(x))
@@ -248,7 +264,7 @@ class World:
         self.sync_procfs()
 
     def waitpid(self, pid, flags):
-        self.oscalls += 1
+        self.tick()
         p = self.procs.get(pid)
         if p is None:
             raise ChildProcessError(10, "No child processes")
@@ -263,7 +279,9 @@ class World:
         if flags & os.WNOHANG:
             if self.ended(p):
                 p["reaped"] = self.terminal(p["status"])
+                self.last_poll = (self.now, False)
                 return (pid, p["status"])
+            self.last_poll = (self.now, True)
             return (0, 0)
         if flags != 0:
             raise OSError(22, "unexpected waitpid flags %r" % flags)
@@ -281,10 +299,12 @@ class World:
         return os.WIFEXITED(st) or os.WIFSIGNALED(st)
 
     def pid_exists(self, pid):
-        self.oscalls += 1
+        self.tick()
         p = self.procs.get(pid)
         if p is None or p["kind"] == "never" or p["reaped"]:
+            self.last_poll = (self.now, False)
             return False
+        self.last_poll = (self.now, not self.ended(p))
         return not self.ended(p)
 
     sync_procfs = staticmethod(lambda: None)
@@ -335,10 +355,16 @@ class Impl:
 
         class VProcess(ps.Process):
             def wait(self, timeout=None):
+                world.steps += 1
+                if world.steps > world.max_steps:
+                    raise Diverge("spin")
                 world.calls.append((self.pid, timeout))
                 return super().wait(timeout)
 
             def is_running(self):
+                world.steps += 1
+                if world.steps > world.max_steps:
+                    raise Diverge("spin")
                 world.sync_procfs()
                 return super().is_running()
         self.VProcess = VProcess
@@ -508,6 +534,7 @@ class Impl:
 
 I0 = Fr(1, 10000)
 CAP = Fr(1, 25)
+COSTS = [Fr(0), Fr(1, 10**6), Fr(1, 10**5), Fr(1, 10**4), Fr(1, 2000), Fr(1, 1000)]
 
 
 def poll_offsets(n):
@@ -980,6 +1007,58 @@ def status_sweep(ctx, impl, res):
     return bad
 
 
+# ------------------------------------------------------------------------------ supporting: syscalls that take time
+
+
+def costed_support(ctx, impl, res, n):
+    """The model charges nothing for a syscall. Supporting check (thorough tier): run the real wait_pid with
+    random per-syscall costs (0 … 1 ms each) and check the property's inequalities with the measured cost added."""
+    w = impl.world
+    bad = 0
+    w.cost_rng = ctx.rng
+    try:
+        for _ in range(n):
+            case = gen_wait_case(ctx.rng)
+            if case["pid"] == 0 or has_eintr(case["env"]):
+                continue
+            ob = impl.run_wait(case)
+            out, ret = ob["out"], Fr(*ob["ret"])
+            start = Fr(*case["start"])
+            tmo = None if case["timeout"] is None else Fr(*case["timeout"])
+            ex = None if case["env"]["exitAt"] is None else Fr(*case["env"]["exitAt"])
+            kind = case["env"]["kind"]
+            ended = kind == "never" or (ex is not None and ex <= ret)
+            why = None
+            if out["kind"] in ("code", "none") and not ended:
+                why = "result before the process ended"
+            elif out["kind"] == "timeout":
+                if ret < start + tmo:
+                    why = "TimeoutExpired before the deadline"
+                elif w.last_poll is None or not w.last_poll[1]:
+                    why = "TimeoutExpired although the last poll saw the process gone"
+                elif not ret < start + tmo + CAP + w.cost_total:
+                    why = "TimeoutExpired later than deadline + 40 ms + syscall costs"
+            elif out["kind"] in ("hang", "fuel", "spin") and tmo is not None:
+                why = "does not come back although a timeout was given"
+            if why is None and any(Fr(*x) != POLLS_IV[i] for i, x in enumerate(ob["sleeps"])):
+                why = "sleep schedule"
+            if why is None and tmo == 0 and ob["sleeps"]:
+                why = "timeout=0 slept"
+            res.count("costed-support:runs")
+            if why:
+                bad += 1
+                if bad <= 3:
+                    res.disagree("spec", {"case": strip(case), "source": "costed-support (syscalls take 0-1 ms)"}, ob, None,
+                                 {"cost_total": jrat(w.cost_total)}, note="with syscall costs: " + why)
+    finally:
+        w.cost_rng = None
+    res.extra["costed_support_violations"] = bad
+    return bad
+
+
+POLLS_IV = [min(I0 * 2 ** k, CAP) for k in range(FUEL + 1)]
+
+
 # ------------------------------------------------------------------------------ correspondence
 
 
@@ -1028,7 +1107,7 @@ def correspond(ctx, res, sweep=True):
                     "with 1-5 processes); non-trivial = the call slept, timed out, was interrupted, was repeated on the "
                     "same object, or (wait_procs) made more than one wait call; distinct = distinct canonical cases; "
                     "plus all 65 536 status words")
-        n = ctx.n(5000, 150000)
+        n = ctx.n(5000, 100000)
         cases = list(CORPUS)
         for i in range(n):
             r = i % 10
@@ -1043,6 +1122,8 @@ def correspond(ctx, res, sweep=True):
         for a in range(0, len(cases), CH):
             chunk = cases[a:a + CH]
             evaluate_and_count(ctx, impl, chunk, res, "generated")
+        if ctx.tier == "thorough":
+            costed_support(ctx, impl, res, ctx.n(0, 20000))
         if sweep:
             status_sweep(ctx, impl, res)
             res.exhaustive = ("all 65 536 16-bit wait status words through the real wait_pid (WNOHANG and blocking paths) "
@@ -1106,40 +1187,63 @@ class _Res:
         pass
 
 
+def _candidates(case):
+    """smaller variants of a failing case"""
+    fam = {"timeout": "?", "kind": "?", "status": "?", "place": "?", "eintr": "?", "n": 0}
+    best = dict(case, fam=fam)
+    cands = []
+    if case["op"] in ("wait", "pwait"):
+        if has_eintr(case["env"]):
+            cands.append(dict(best, env=dict(case["env"], eintr=[], eintrTail=False)))
+        if case["op"] == "pwait":
+            for k in range(1, len(case["calls"])):
+                cands.append(dict(best, calls=case["calls"][:k]))
+            if len(case["calls"]) > 2:
+                cands.append(dict(best, calls=[case["calls"][0], case["calls"][-1]]))
+        elif case["start"] != [0, 1] and case["env"].get("exitAt") is None:
+            cands.append(dict(best, start=[0, 1]))
+    else:
+        for i in range(len(case["procs"])):
+            if len(case["procs"]) > 1:
+                pid = case["procs"][i]["pid"]
+                c = dict(best, procs=[p for p in case["procs"] if p["pid"] != pid],
+                         list=[x for x in case["list"] if x[0] != pid])
+                if c["list"]:
+                    cands.append(c)
+        if case["hasCb"]:
+            cands.append(dict(best, hasCb=False))
+        if len(case["list"]) > len(case["procs"]):
+            seen, lst = set(), []
+            for x in case["list"]:
+                if x[0] not in seen:
+                    seen.add(x[0])
+                    lst.append([x[0], 0])
+            cands.append(dict(best, list=lst))
+    return cands
+
+
 def shrink(ctx, d):
     case = d["input"].get("case")
-    if not case:
+    if not case or d["input"].get("source") == "status-sweep":
         return d
     impl = Impl(ctx)
     try:
-        best = dict(case, fam={"timeout": "?", "kind": "?", "status": "?", "place": "?", "eintr": "?", "n": 0})
-        cands = []
-        if case["op"] in ("wait", "pwait"):
-            if has_eintr(case["env"]):
-                c = dict(best, env=dict(case["env"], eintr=[], eintrTail=False))
-                cands.append(c)
-            if case["op"] == "pwait" and len(case["calls"]) > 1:
-                for k in range(1, len(case["calls"])):
-                    cands.append(dict(best, calls=case["calls"][:k]))
-            cands.append(dict(best, start=[0, 1]) if case["op"] == "wait" else best)
-        else:
-            for i in range(len(case["procs"])):
-                if len(case["procs"]) > 1:
-                    pid = case["procs"][i]["pid"]
-                    c = dict(best, procs=[p for p in case["procs"] if p["pid"] != pid],
-                             list=[x for x in case["list"] if x[0] != pid])
-                    if c["list"]:
-                        cands.append(c)
-            cands.append(dict(best, hasCb=False))
-        for c in cands:
-            try:
-                f = _case_fails(ctx, impl, c)
-            except Exception:
-                continue
-            if f:
-                d2 = f[0]
-                return dict(d, input=d2["input"], impl=d2["impl"], model=d2["model"], spec=d2["spec"],
-                            note=d2["note"] + " (shrunk)")
+        cur, cur_d = case, None
+        for _ in range(12):
+            progressed = False
+            for c in _candidates(cur):
+                try:
+                    f = _case_fails(ctx, impl, c)
+                except Exception:
+                    continue
+                if f:
+                    cur, cur_d, progressed = strip(c), f[0], True
+                    break
+            if not progressed:
+                break
+        if cur_d is not None:
+            return dict(d, input=cur_d["input"], impl=cur_d["impl"], model=cur_d["model"], spec=cur_d["spec"],
+                        note=cur_d["note"] + " (shrunk)")
     finally:
         impl.close()
     return d
